@@ -24,6 +24,9 @@ def _registrations(fn):
     """expressions X of every `X._Add_observer(self)` in the function (comprehensions included)"""
     out = []
     for node in ast.walk(fn):
+        if isinstance(node, ast.Call) and isinstance(node.func, ast.Attribute) and node.func.attr == "_Remove_observer":
+            # a constructor that unsubscribes somebody changes the wiring of OTHER simulations: not modelled
+            raise Refuse(f"{fn.name} removes an observer: {ast.unparse(node)}")
         if isinstance(node, ast.Call) and isinstance(node.func, ast.Attribute) and node.func.attr == "_Add_observer":
             if len(node.args) != 1 or ast.unparse(node.args[0]) != "self":
                 raise Refuse(f"_Add_observer with an argument other than self: {ast.unparse(node)}")
@@ -71,9 +74,12 @@ def extract(repo):
     pcls = next((n for n in params.body if isinstance(n, ast.ClassDef) and n.name == "_Parameter"), None)
     if pcls is None:
         raise Refuse("_Parameter not found")
-    chain = {
-        "_Parameter.__set__": _need(_method(pcls, "__set__"), ["self._checker(value)", "instance.__dict__[self.__name] = value", "instance.Need_Update()"], "_Parameter.__set__"),
-    }
+    setter = _method(pcls, "__set__")
+    body = [ast.unparse(st) for st in setter.body if not (isinstance(st, ast.Expr) and isinstance(st.value, ast.Constant) and isinstance(st.value.value, str))]
+    # the whole body, not a selection: a test inserted between the store and the notification must not go unnoticed
+    chain = {"_Parameter.__set__": body}
+    if body != ["self._checker(value)", "instance.__dict__[self.__name] = value", "if isinstance(instance, Updatable):\n    instance.Need_Update()"]:
+        raise Refuse(f"_Parameter.__set__ is no longer [check, store, notify every Updatable]: {body}")
     utils = ast.parse(open(os.path.join(repo, "EasyFEA", "Models", "_utils.py"), encoding="utf-8").read())
     imodel = next((n for n in utils.body if isinstance(n, ast.ClassDef) and n.name == "_IModel"), None)
     if imodel is None:
@@ -89,7 +95,7 @@ def extract(repo):
 def write(repo: str, outdir: str) -> dict:
     table, chain = extract(repo)
     os.makedirs(outdir, exist_ok=True)
-    q = lambda s: '"' + s.replace('"', "'") + '"'  # noqa: E731
+    q = lambda s: '"' + s.replace('"', "'").replace("\n", "\\n") + '"'  # noqa: E731
     rows = ",\n  ".join("(" + q(k) + ", [" + ", ".join(q(x) for x in v) + "])" for k, v in table.items())
     crow = ",\n  ".join("(" + q(k) + ", [" + ", ".join(q(x) for x in v) + "])" for k, v in chain.items())
     txt = ("-- GENERATED by tools/py2lean/gen_c14.py from /repo/EasyFEA/Simulations/_*.py — do not edit\n"
